@@ -51,7 +51,8 @@ class CrashPlan(Monitor):
             self.later_user.append([rec["path"]] + ([rec["to"]] if rec.get("to") else []))
 
     def at_quiescence(self, sim, final):
-        if not self.crashed:
+        # (the runner also calls this when the engine died inside the quiescence loop, before at_crash: not a quiet point)
+        if not self.crashed and not sim.world.dead:
             self.later_user = []        # a new window starts: earlier operations are fully synchronised
 
     def k17(self, sim_crash_site=None):
